@@ -71,6 +71,10 @@ impl Handle {
     pub fn pending_rx(&self) -> bool {
         !self.0.lock().unwrap().rx.is_empty()
     }
+    /// bytes pushed but not yet read by the consumer
+    pub fn pending_bytes(&self) -> usize {
+        self.0.lock().unwrap().rx.iter().map(|x| if let Rx::Data(v) = x { v.len() } else { 0 }).sum()
+    }
     pub fn take_writes(&self) -> Vec<Vec<u8>> {
         std::mem::take(&mut self.0.lock().unwrap().writes)
     }
